@@ -3,4 +3,4 @@
    need; this one exists so that `make` and a reader find them in one place. *)
 From Soy Require Export Proofs.SourceTieBase Proofs.SourceTieValue Proofs.SourceTieLexer Proofs.SourceTieErrPos Proofs.SourceTieExpr Proofs.SourceTieParser
   Proofs.SourceTieText Proofs.SourceTieQuote Proofs.SourceTieData Proofs.SourceTieHtml Proofs.SourceTieMsg Proofs.SourceTiePo
-  Proofs.SourceTieJs Proofs.SourceTieChecker Proofs.SourceTieAstPrint Proofs.SourceTieState Proofs.SourceTieJsScope Proofs.SourceTieJsText Proofs.SourceTieScope Proofs.SourceTieRegistry Proofs.SourceTieDirectives Proofs.SourceTieUnquote.
+  Proofs.SourceTieJs Proofs.SourceTieChecker Proofs.SourceTieAstPrint Proofs.SourceTieState Proofs.SourceTieJsScope Proofs.SourceTieJsText Proofs.SourceTieScope Proofs.SourceTieRegistry Proofs.SourceTieDirectives Proofs.SourceTieUnquote Proofs.SourceTieMsgLoops Proofs.SourceTieUtf8 Proofs.SourceTieQuoteString Proofs.SourceTieWordBreaks.
